@@ -17,6 +17,9 @@ TO_BE = "annotations::AnnotationId::to_be_bytes"
 
 def run(ck, prog, ctx):
     ck.rule("PANIC", "no may-panic callee / Assert terminator in any crate body reachable from the entry point (DESIGN 3.1)")
+    ck.rule("SELFCMP", "the PartialEq / Ord / PartialOrd impls of HpoTermId (against ids and against text) compare self with other and answer `eq` with the un-negated equality")
+    from engines import check_comparison_impls
+    check_comparison_impls(ck, "SELFCMP", prog, r"^src/term/hpotermid\.rs$", floor=0)
     ck.rule("TABLE", "constants extracted from both sides agree (DESIGN 3.12)")
     tf = prog.body(TRY_FROM)
     if ck.anchor("PANIC", "impl TryFrom<&str> for HpoTermId", tf):
